@@ -1,4 +1,5 @@
 #!/bin/bash
+# needs a scratch copy of the repository first:  git -C /repo worktree add --detach /tmp/repodev HEAD   (remove it afterwards: git -C /repo worktree remove --force /tmp/repodev)
 # usage: tools_devseed.sh <seed-id|none> <Cxx> [only-substring]   development loop on the scratch copy /tmp/repodev (never /repo)
 s=$1; p=$2; only=${3:-V}
 cd /tmp/repodev || exit 3
